@@ -32,4 +32,7 @@ def build(tier):
                                   symargs=True)
     # C11.b whole sequences: tests/sections next to documented set()/generic commands and their implementing functions, documented or not
     obs += seqs.seq_obligations('C11.b', ['ct_add_test', 'ct_add_section', 'function', 'endfunction', 'set', 'message', 'add_test'], 3 if quick else 4, 1, timeout=400 if quick else 2400)
+    mix = [('ct_add_section', True), ('function', False), ('endfunction', False), ('add_test', True), ('set', True)]
+    pre = [('ct_add_test', True), ('function', False)] + [mix[i % len(mix)] for i in range(60 if quick else 150)] + [('endfunction', False)]
+    obs += seqs.seq_obligations('C11.b', ['ct_add_test', 'ct_add_section', 'add_test', 'function', 'endfunction'], 2, 1, timeout=400 if quick else 2400, pre=pre)
     return dict(obligations=obs, explanation="x", assumptions=[])
